@@ -118,7 +118,8 @@ def c021(ctx):
             _srcs, slice_locals = P.value_slice(f, st["rv"]["ops"][0])
             reads = [rp for rp in P.field_reads(f, r"log::WriteCoalescingCore$", "written")
                      if rp == pt or (rp[1] < len(f.blocks[rp[0]].st) and f.blocks[rp[0]].st[rp[1]]["lhs"]["l"] in slice_locals and
-                                     f.blocks[rp[0]].st[rp[1]]["rv"]["r"] in ("use", "cast"))]
+                                     f.blocks[rp[0]].st[rp[1]]["rv"]["r"] in ("use", "cast", "ref"))]      # a shared borrow (a closure capturing
+            # `&self.written`) pins the value from the borrow on: it counts as the read
             token_from_written = any(s_["k"] == "field" and s_["f"] == "written" for s_ in P.origins(f, st["rv"]["ops"][0]))
             stale = [rp for rp in reads if rp not in wr and P.order(f, wr, [rp])]
             ctx.check(R, f, "token-covers-batch", token_from_written and bool(reads) and not stale,
@@ -218,30 +219,50 @@ def c021_fsync_core(ctx, R, f):
                   "the local fsync() does not (always) call fdatasync/fsync", pt=pt)
     # every `true` that can flow into the output comes from (a) the synced>=acc edge or (b) fsync's result
     rep = P.call_points(f, r"core::iter::repeat$|core::iter::sources::repeat::repeat$")
-    ctx.floor(R, f.skey + " outputs", len(rep), 2)
+    ctx.floor(R, f.skey + " outputs", len(rep), 1)
+
+    def synced_guard(p_):
+        for bb, lab, ss in K.guards(f, p_):
+            for s in ss:
+                if s["k"] == "bin" and s["op"] in ("Ge", "Le", "Gt", "Lt"):
+                    st = s["st"]["rv"]
+                    fa = P.origin_fields(f, st["a"]) | P.origin_fields(f, st["b"])
+                    if any(n == "synced" for (_o, n) in fa):
+                        return True
+        return False
+
+    def const_points(op, p_, seen):
+        """points at which a constant that can flow into `op` is produced: the use site itself for a constant operand, else the assignments"""
+        if op.get("k") == "const":
+            return [(p_, op["c"].get("v"))]
+        out = []
+        l = op["pl"]["l"]
+        if l in seen or op["pl"]["p"]:
+            return out
+        seen.add(l)
+        for q, kind, st in P.defs(f).of(l):
+            if kind == "assign" and st["rv"]["r"] == "use":
+                out += const_points(st["rv"]["a"], q, seen)
+        return out
+    n_true = 0
+    from_fsync = False
     for pt in rep:
         t = P.term_at(f, pt)
         srcs = P.origins(f, t["args"][0])
-        consts = [s for s in srcs if s["k"] == "const"]
-        calls = {s["callee"] for s in srcs if s["k"] == "call"}
-        if consts:
-            ok = all(c.get("v") in (0, 1) for c in consts)
-            if any(c.get("v") == 1 for c in consts):
-                # must be guarded by the comparison on self.synced
-                ok = False
-                for bb, lab, ss in K.guards(f, pt):
-                    for s in ss:
-                        if s["k"] == "bin" and s["op"] in ("Ge", "Le", "Gt", "Lt"):
-                            st = s["st"]["rv"]
-                            fa = P.origin_fields(f, st["a"]) | P.origin_fields(f, st["b"])
-                            if any(n == "synced" for (_o, n) in fa):
-                                ok = True
-            ctx.check(R, f, "const-true", ok, "a constant `true` output is guarded by the synced-watermark comparison",
-                      "a constant true is returned to waiters without the synced watermark covering them", pt=pt)
-        else:
-            ctx.check(R, f, "output-origin", any(c.endswith("::work::fsync") for c in calls),
-                      "the output is the return value of the local fsync()",
-                      "the fsync queue's output does not originate in fsync()'s return value", pt=pt)
+        from_fsync = from_fsync or any(s["k"] == "call" and s["callee"].endswith("::work::fsync") for s in srcs)
+        for q, v in const_points(t["args"][0], pt, set()):
+            ok = v in (0, 1)
+            if v == 1:
+                n_true += 1
+                ok = synced_guard(q)
+            ctx.check(R, f, "const-true", ok, "a constant `true` output is produced only under the synced-watermark comparison",
+                      "a constant true is returned to waiters without the synced watermark covering them", pt=q)
+        others = [s for s in srcs if s["k"] not in ("const", "call", "bin", "un") and not (s["k"] == "param")]
+        ctx.check(R, f, "output-origin", any(s["k"] in ("const", "call") for s in srcs) and
+                  all(s["callee"].endswith("::work::fsync") or re.search(r"(^|::)(branch|clone|from|into)$", s["callee"]) for s in srcs if s["k"] == "call"),
+                  "the output is a constant or the return value of the local fsync()",
+                  "the fsync queue's output does not originate in fsync()'s return value", pt=pt)
+    ctx.check(R, f, "output-from-fsync", from_fsync, "some output is the verdict of the local fsync()", "no output of the fsync queue derives from fsync()'s return value")
     # self.synced = acc only on the success edge of fsync
     for pt in P.field_writes(f, r"FsyncCoalescingCore$", "synced"):
         ok = False
@@ -532,8 +553,21 @@ def c025(ctx):
         ctx.must_pass(R, f, "recover", rc)
     f = ctx.fn(R, KVS + "recover")
     if f:
-        ro = ctx.calls(R, f, KVS + "recover_one$")
-        loop_body_must_pass(ctx, R, f, r"IntoIter.* as core::iter::traits::iterator::Iterator>::next$", ro, "recover_one")
+        ro = P.call_points(f, KVS + "recover_one$")
+        if ro:
+            ctx.ok(R, f, "recover calls recover_one", ro)
+            loop_body_must_pass(ctx, R, f, r"IntoIter.* as core::iter::traits::iterator::Iterator>::next$", ro, "recover_one")
+        else:
+            # the same loop written as a fold: `numbers.into_iter().try_fold(0, |acc, n| recover_one(.., n, ..) ..)` -- a closure of recover
+            # that replays its element on every path, driven over the whole vector by an adaptor that visits every element
+            folds = [p_ for p_ in P.call_points(f, r"Iterator>?::(try_fold|try_for_each|fold|for_each)$")
+                     if re.search(r"vec::into_iter::IntoIter<u64", P.term_at(f, p_).get("ga") or "") and not K.DROPPING_ADAPTERS.search(P.term_at(f, p_).get("ga") or "")]
+            cl = [g for g in ctx.prog.closures_of(f) if P.call_points(g, KVS + "recover_one$")]
+            ctx.check(R, f, "loop:recover_one", bool(folds) and len(cl) == 1, "the log numbers are folded over by a closure that calls recover_one",
+                      "recover neither loops over the log numbers calling recover_one nor folds them through a closure that does")
+            for g in cl:
+                q = P.must_pass(g, P.call_points(g, KVS + "recover_one$"))
+                ctx.check(R, g, "loop-skip:recover_one", q is None, "the closure replays its log on every path", "the fold's closure can return without replaying its log", path=q)
 
 
 def skip_edges(f, cond_pat, targets):
